@@ -701,3 +701,17 @@ Theorem C04_open_dir_setmeta_crash :
     ob (mkSI (Some (Z.to_N (FileStorage.fd_num B))) (dir_files v)).
 Proof. exact open_dir_setmeta_crash. Qed.
 Print Assumptions C04_open_dir_setmeta_crash.
+
+(* One of the three gaps of C04_open_rw_refines_recover_partial, closed: the recovery's flushes cannot fail.  The
+   table writer model's Append refuses a key only when it is not above the previous one, and a buffer that
+   satisfies C14's invariant lists its keys in strictly increasing iComparer order — so session.flushMemdb always
+   produces a table (open_bytes never returns OEFlush from such a buffer).  Left: sessionRecord.encode (no negative
+   number) and the janitor (every named table is found). *)
+From GL Require Import Store.OpenRwProofs.
+Theorem C04_open_flush_total :
+  forall rp kp, (keyTypeSeek kp <= keyTypeVal kp)%N -> forall mp, MemDB.mparams_ok mp ->
+  forall tp tcrc compress snappy fgen blockSize ri c st,
+  mem_ok c kp mp (r_mdb st) ->
+  exists st', flush_memdb rp kp mp tp tcrc compress snappy fgen blockSize ri c st = OOk st'.
+Proof. exact flush_memdb_total. Qed.
+Print Assumptions C04_open_flush_total.
